@@ -105,7 +105,16 @@ def gen_sgrid(rng, kind=None, words=None, space=None):
         if kind == "2dv":
             attrs["vertical_dimensions"] = entries[2]
     conv = rng.choice(["SGRID-0.3", "CF-1.6, SGRID-0.3", "sgrid"])
-    return {"conv": conv, "sgrid": attrs, "sizes": sizes, "dims": [], "user": None, "topo": topo}
+    # a dataset that declares SGRID may ALSO carry COMODO/CF `axis` attributes (on a time coordinate, on a
+    # depth coordinate outside a 2-D topology, on the topology's own dimensions): SGRID alone is used
+    dims = []
+    if rng.random() < 0.35:
+        if rng.random() < 0.7:
+            dims.append([rng.choice(["ocean_time", "tt", "depth_w"]), 3, rng.choice(["T", "Z", "W"]), None])
+        if rng.random() < 0.5:
+            d, n = rng.choice(sizes)
+            dims.append([d, n, rng.choice(["X", "Y", "Q"]), rng.choice([None, -0.5])])
+    return {"conv": conv, "sgrid": attrs, "sizes": sizes, "dims": dims, "user": None, "topo": topo}
 
 
 def generate(rng, tier):
@@ -163,6 +172,11 @@ def build_ds(case):
     ds = xr.Dataset(attrs={"Conventions": case["conv"]})
     for d, n in case.get("sizes", []):
         ds = ds.assign_coords({d: np.arange(n)})
+    for name, n, axis, shift in case.get("dims", []):
+        attrs = {"axis": axis}
+        if shift is not None:
+            attrs["c_grid_axis_shift"] = shift
+        ds = ds.assign_coords({name: xr.DataArray(np.arange(n), dims=[name], attrs=attrs)})
     if case["sgrid"] is not None:
         ds["grid"] = xr.DataArray(0, attrs=case["sgrid"])
     return ds
